@@ -26,6 +26,7 @@ type naStream struct {
 	CloseBy    int   `json:"close_by"`    // 0 client closes when done, 1 server closes when done, 2 both
 	DeadlineMs int   `json:"deadline_ms"` // server read deadline (0 none)
 	StartMs    int   `json:"start_ms"`
+	sessionLeaves bool // (derived) the stream's client session closes on its own during the run
 }
 
 type naPlan struct {
@@ -34,6 +35,9 @@ type naPlan struct {
 	Sessions [][]naStream `json:"sessions"`
 	CloseAt  int          `json:"listener_close_at_ms"` // -1: after everything finished
 	Backlog  int          `json:"backlog"`
+	AcceptDelayMs int     `json:"accept_delay_ms,omitempty"`   // the application accepts slowly: streams wait in the backlog
+	SessionLeaveMs []int  `json:"session_leave_ms,omitempty"`  // per client session: it closes its session at this time (-1 never)
+	DoubleClose bool      `json:"double_close,omitempty"`      // server connections are closed by two goroutines at once
 }
 
 type netadScenario struct{}
@@ -86,6 +90,17 @@ func (netadScenario) Gen(r *Rng, tier string, opts map[string]string) interface{
 	if r.Chance(1, 2) {
 		p.CloseAt = r.Pick(0, 1, 5, 50, 300, 1000)
 	}
+	if r.Chance(1, 3) {
+		p.AcceptDelayMs = r.Pick(5, 50, 300)
+	}
+	for range p.Sessions {
+		leave := -1
+		if len(p.Sessions) > 1 && r.Chance(1, 4) {
+			leave = r.Pick(1, 20, 150, 600)
+		}
+		p.SessionLeaveMs = append(p.SessionLeaveMs, leave)
+	}
+	p.DoubleClose = r.Chance(1, 3)
 	return p
 }
 
@@ -209,6 +224,9 @@ func (w *naWorld) main(dir string) {
 	simrt.GoProc(w.ps, "acceptor", func() {
 		simrt.MarkDaemon()
 		for {
+			if p.AcceptDelayMs > 0 {
+				simrt.Sleep(time.Duration(p.AcceptDelayMs) * time.Millisecond)
+			}
 			c, err := w.ln.Accept()
 			if err != nil {
 				w.acceptErr = true
@@ -250,6 +268,18 @@ func (w *naWorld) main(dir string) {
 			return
 		}
 		w.sessions = append(w.sessions, sess)
+		if si < len(p.SessionLeaveMs) && p.SessionLeaveMs[si] >= 0 {
+			leaveAt := p.SessionLeaveMs[si]
+			for j := range ss {
+				p.Sessions[si][j].sessionLeaves = true
+			}
+			sess := sess
+			simrt.GoProc(w.pc, "session-leave", func() {
+				simrt.Sleep(time.Duration(leaveAt) * time.Millisecond)
+				simrt.SetGlobalTag("after_session_loss", "yes")
+				_ = sess.Close()
+			})
+		}
 		for j := range ss {
 			key++
 			cs := &naConnState{key: key, plan: &p.Sessions[si][j]}
@@ -294,7 +324,7 @@ func (w *naWorld) main(dir string) {
 			simrt.Fail("C19.accept_twice", "stream %d surfaced %d times as a net.Conn", k, cs.accepted)
 			return
 		}
-		if cs.accepted == 0 && cs.written > 0 && !w.lnClosed {
+		if cs.accepted == 0 && cs.written > 0 && !w.lnClosed && !cs.plan.sessionLeaves {
 			simrt.Fail("C19.not_accepted", "stream %d wrote %d bytes successfully but never surfaced from Accept (everything has been quiet for 10 s)", k, cs.written)
 			return
 		}
@@ -512,9 +542,23 @@ func (w *naWorld) serveConn(c net.Conn) {
 			return
 		}
 	}
+	// a client that wrote everything successfully and closes only afterwards: the server, reading until the end,
+	// receives all of it (its connection keeps the session alive even after the listener was closed)
+	if cs.received < total && cs.written == total && !pl.sessionLeaves && pl.DeadlineMs == 0 && pl.CloseBy == 0 {
+		tags := map[string]string{}
+		simrt.FailTagged("C19.lost_bytes", tags, "stream %d: the client wrote %d bytes successfully and closed afterwards, but the server's reads ended after %d bytes", cs.key, total, cs.received)
+		return
+	}
 	if pl.CloseBy == 1 || pl.CloseBy == 2 {
 		cs.srvClosed = true
-		_ = c.Close()
+		if w.plan.DoubleClose {
+			d2 := make(chan struct{})
+			simrt.GoProc(w.ps, "closer2", func() { defer close(d2); _ = c.Close() })
+			_ = c.Close()
+			simrt.Recv(d2)
+		} else {
+			_ = c.Close()
+		}
 		// after Close every operation fails
 		if _, err := c.Write([]byte{1}); err == nil {
 			simrt.Fail("C19.use_after_close", "Write succeeded on a closed connection")
